@@ -74,6 +74,19 @@ def parseOp (ws : List String) : Option Op :=
   | ["half", p] => p.toNat?.bind fun p => if p < 16 then some (.half p) else none
   | ["halfgone", p] => p.toNat?.bind fun p => if p < 16 then some (.halfgone p) else none
   | ["finish"] => some .finish
+  | ["sendn", k, n] =>
+    match k.toNat?, n.toNat? with
+    | some k, some n => if k < 16 ∧ 1 ≤ n ∧ n ≤ 12 then some (.sendn k n) else none
+    | _, _ => none
+  | ["rate", r] => if r == "slow" then some (.rate 0) else if r == "normal" then some (.rate 1)
+      else if r == "fast" then some (.rate 2) else none
+  | ["fault", k, n] =>
+    match n.toNat? with
+    | some n =>
+      if n < 1 ∨ n > 9 then none else
+      if k == "add" then some (.fault 0 n) else if k == "mod" then some (.fault 1 n)
+      else if k == "del" then some (.fault 2 n) else none
+    | none => none
   | _ => none
 
 structure D where
@@ -82,7 +95,7 @@ structure D where
 
 def step (d : D) (ws : List String) : D × List String :=
   match ws with
-  | ["svc", _] => ({ d with st := some d.variant }, ["ok"])
+  | ["svc", t] => ({ d with st := some { d.variant with sock := t == "sock" } }, ["ok"])
   | _ =>
     match d.st with
     | none =>
